@@ -249,11 +249,11 @@ theorem ancIter_spec (self : Bool) (n : Ref) (first : Bool) (hg : Good d n) :
       rw [ancCands_false]
       exact h2 j rest h
 
-variable (key : Ref → UInt64)
+variable (key : Ref → String)
 
 /-- the `for node := a.iterator(); …` loop: it reports the first candidate whose key is not in the
 table and records it, or runs the closure dry -/
-theorem ancLoop_spec (self : Bool) : ∀ (k : Nat) (n : Ref) (first : Bool) (tb : List UInt64), Good d n →
+theorem ancLoop_spec (self : Bool) : ∀ (k : Nat) (n : Ref) (first : Bool) (tb : List String), Good d n →
     (ancCands d t self n first).length ≤ k →
     (∃ f0 j, (∀ f, f0 ≤ f → ancLoop d t key self f n first tb = .yield (j, key j :: tb)) ∧ Good d j ∧
       ∀ ys, dedupByKey key (ancCands d t self n first ++ ys) tb
